@@ -81,6 +81,22 @@ class Decls:
         s.structs = {}   # name -> (kind, [(fname or None, type)])
         s.impls = {}     # (relpath, line) -> (self_type, trait or None)
         s.where = {}     # name -> file
+        s.enums_all = {} # name -> [(file, variants)]
+    def find_enum(s, segs, variant):
+        """resolve `...::mod::Enum::Variant` path segments to (enum key, variants); enum key is 'Enum' or 'Enum@file' for homonyms"""
+        en = segs[-1]
+        cands = [(f, vs) for f, vs in s.enums_all.get(en, []) if any(v[0] == variant for v in vs)]
+        if not cands:
+            if en in s.enums and any(v[0] == variant for v in s.enums[en]): return en, s.enums[en]
+            return None, None
+        if len(cands) > 1 and len(segs) >= 2:
+            mod = segs[-2].replace('r#', '')
+            c2 = [c for c in cands if os.path.basename(c[0])[:-3] == mod or ('/' + mod + '/') in c[0]]
+            if c2: cands = c2
+        f, vs = cands[0]
+        key = en if s.enums.get(en) is vs else f'{en}@{os.path.basename(f)}'
+        if key not in s.enums: s.enums[key] = vs
+        return key, vs
     def enum_index(s, enum, variant):
         for i, (v, k, f) in enumerate(s.enums[enum]):
             if v == variant: return i
@@ -107,6 +123,7 @@ def parse_file(path, decls, rel=None):
                 vs.append((mm.group(1), 'struct', fs))
             else:
                 vs.append((mm.group(1), 'unit', []))
+        decls.enums_all.setdefault(name, []).append((path, vs))
         if name not in decls.enums:
             decls.enums[name] = vs; decls.where[name] = path
     for m in re.finditer(r'\b(?:pub(?:\([^)]*\))? )?struct (\w+)\s*(<[^{(;]*?>)?\s*(?:where[^{(;]*)?([{(;])', src):
